@@ -79,6 +79,7 @@ ADD_PAGES = [T(LA, "Traph.add_page"), T(LA, "Traph.add_pages")]
 PREFIXES = [T(LB, "Traph.__add_prefixes"), T(LB, "Traph.create_webentity"), T(LB, "Traph.delete_webentity"), T(LB, "Traph.get_webentity_by_prefix")]
 LD = ("helpers,batchlinks", "abstract")
 LN = ("helpers,network", "abstract")
+LS_ = ("helpers,networkslow", "abstract")
 LH = ("helpers,hierarchy", "abstract")
 LR = ("helpers,rules", "abstract")
 LW = ("helpers,wepages", "abstract")
@@ -96,21 +97,21 @@ DEDUCTIVE = {
     "C02": STORAGE[2:4] + STORAGE[6:9] + CHUNKS + NODE_RW + node(["stem", "left", "right", "child", "has_left", "has_right", "has_child", "set_left", "set_right", "set_child", "set_parent"]) + ENSURE + LRU_ITER + READERS + WINDUP + DFS + ADD_LRU,
     "C03": node(["has_outlinks", "outlinks", "has_inlinks", "inlinks", "set_outlinks", "set_inlinks"]) + NODE_RW[:2] + LINK_NODE + ADD_LINKS + LINK_WRAPPERS + BATCH + [T(LQ, "Traph.get_page_links", 2), T(LA, "Traph.get_page_indegree"), T(LA, "Traph.get_page_outdegree"), T(LA, "Traph.get_page_degree")] + WALKS + COUNT_LINKS,
     "C04": node(["has_webentity", "webentity", "set_webentity", "unset_webentity"]) + NODE_RW[:2] + EDITS + LRU_ITER + READERS[1:] + RESOLVE + LADDER[:1] + PREFIXES,
-    "C05": node(["has_webentity", "is_page", "is_crawled", "has_child", "child", "has_left", "has_right"]) + READERS[:1] + REALM + LADDER[:1] + WEPAGES,
+    "C05": node(["has_webentity", "is_page", "is_crawled", "has_child", "child", "has_left", "has_right"]) + READERS + RESOLVE[:1] + REALM + LADDER[:1] + WEPAGES,
     "C06": node(["has_webentity_creation_rule", "flag_as_webentity_creation_rule", "unflag_as_webentity_creation_rule"]) + READERS[1:] + [T(HE, "LRUTrieWalkHistory.rules_to_apply")] + LADDER + [T(LA, "Traph.get_potential_prefix")] + RULES,
-    "C07": node(["has_webentity", "webentity", "has_parent", "parent"]) + LINK_NODE + WALKS + [T(TR, "LRUTrie.dfs_with_webentity_iter", 2), T(TR, "LRUTrie.windup_lru_for_webentity", 2), T(LN, "Traph.get_webentities_links_iter")],
+    "C07": node(["has_webentity", "webentity", "has_parent", "parent"]) + LINK_NODE + WALKS + [T(TR, "LRUTrie.dfs_with_webentity_iter", 2), T(TR, "LRUTrie.windup_lru_for_webentity", 2), T(LN, "Traph.get_webentities_links_iter"), T(LS_, "Traph.get_webentities_links_slow_iter")],
     "C08": node(["has_outlinks", "has_inlinks", "outlinks", "inlinks"]) + LINK_NODE + WALKS + [T(TR, "LRUTrie.windup_lru_for_webentity", 2)] + WINDUP + [T(LP, "Traph.get_webentity_pagelinks_iter", 2)] + CITED,
     "C09": [T(HE, "base4_append")] + LRU_DIRNAME + [T(LP, "Traph.paginate_webentity_pages", 2)],
     "C10": node(["has_outlinks", "outlinks", "is_page"]) + [T(LP, "Traph.paginate_webentity_pagelinks", 4)],
     "C11": STORAGE + IDS[1:] + RULES[:1],
-    "C12": IDS + PREFIXES[:2],
+    "C12": IDS + PREFIXES[:2] + [T(ST, "FileStorage.write", 2), T(ST, "MemoryStorage.write", 2)],
     "C13": node(["can_have_child_webentities", "flag_can_have_child_webentities", "has_parent", "parent"]) + ENSURE + EDITS + DFS[:1] + LADDER[:1] + PREFIXES[:1] + HIER + ADD_LRU_C13,
     "C14": [T(ST, f) for f in ("MemoryStorage.read", "FileStorage.read", "MemMapStorage.read", "MemoryStorage.__len__", "FileStorage.__len__", "FileStorage.check_for_corruption")] + [T(NO, "LRUTrieNode.read", 2)] + node(NODE_ACCESSORS) + READERS,
     "C15": STORAGE + [T(NO, "LRUTrieNode.read", 2)],
     "C16": NODE_RW[:2] + ADD_LINKS + BATCH,
     "C17": [T(HE, "https_variation"), T(HE, "lru_variations")] + LADDER + PREFIXES[:1],
     "C18": [T(NO, "LRUTrieNode.read", 2), T(NO, "LRUTrieNode.write", 8), T(LK, "LinkStoreNode.read")] + ADD_LINKS + COUNTS + [T(ST, "FileStorage.check_for_corruption"), T(ST, "FileStorage.read"), T(ST, "FileStorage.write", 2)],
-    "C19": CHUNKS + [T(NO, "LRUTrieNode.set_stem"), T(NO, "LRUTrieNode.write", 8), T(ST, "MemoryStorage.count_blocks"), T(ST, "FileStorage.count_blocks")] + ENSURE + LADDER[:1] + ADD_LRU + ADD_LINKS + COUNT_LINKS,
+    "C19": CHUNKS + [T(NO, "LRUTrieNode.set_stem"), T(NO, "LRUTrieNode.write", 8), T(ST, "MemoryStorage.count_blocks"), T(ST, "FileStorage.count_blocks"), T(ST, "MemoryStorage.write", 2), T(ST, "FileStorage.write", 2)] + ENSURE + LADDER[:1] + ADD_LRU + ADD_LINKS + COUNT_LINKS,
     "C20": node(["has_inlinks", "inlinks", "is_page"]) + LINK_NODE + WALKS + REALM,
 }
 
